@@ -229,7 +229,7 @@ func finishCheck(run *PropRun, t0 time.Time, update bool) int {
 	var samples []interface{}
 	var undecided []string
 	seen := map[string]*ObGroup{}
-	replayDir := filepath.Join(verifDir(), "replays", id)
+	replayDir := filepath.Join(outDir(), "replays", id)
 	os.MkdirAll(replayDir, 0o755)
 	isKnown := func(name string) *Finding {
 		for i := range findings {
@@ -367,9 +367,9 @@ func finishCheck(run *PropRun, t0 time.Time, update bool) int {
 		cov[k] = v
 	}
 	ev["coverage"] = cov
-	os.MkdirAll(filepath.Join(verifDir(), "evidence"), 0o755)
+	os.MkdirAll(filepath.Join(outDir(), "evidence"), 0o755)
 	data, _ := json.MarshalIndent(ev, "", " ")
-	os.WriteFile(filepath.Join(verifDir(), "evidence", id+".json"), data, 0o644)
+	os.WriteFile(filepath.Join(outDir(), "evidence", id+".json"), data, 0o644)
 
 	if update {
 		var names []string
@@ -405,6 +405,17 @@ func finishCheck(run *PropRun, t0 time.Time, update bool) int {
 		return 3
 	}
 	return 0
+}
+
+// outDir: evidence and replay files of runs against a scratch copy (VERIF_REPO set: self-test, seeded changes)
+// go to a scratch directory, never into /verif/evidence.
+func outDir() string {
+	if os.Getenv("VERIF_REPO") != "" {
+		d := filepath.Join(os.TempDir(), "govc-scratch-out")
+		os.MkdirAll(d, 0o755)
+		return d
+	}
+	return verifDir()
 }
 
 func round2(f float64) float64 { return float64(int(f*100+0.5)) / 100 }
